@@ -29,7 +29,7 @@ var levels = map[string]string{
 }
 
 var rules = map[string]string{
-	"C29": "real blocks (real signed txns executed through Chain.UpdateState, real miner key) cloned through the JSON receive path; every single tamper of the effect-relevant field list is applied to every block and Block.ComputeHash / Transaction.VerifyHash / VerifyOutputHash / Block.Validate are observed; distinct = (tamper class, field, variant, detected-by) tuples",
+	"C29": "real blocks (real signed txns executed through Chain.UpdateState, real miner key) cloned through the JSON receive path; every single tamper of the effect-relevant field list is applied to every block and Block.ComputeHash / Transaction.VerifyHash / VerifyOutputHash / Block.Validate are observed; distinct = (tamper class, field, variant, detected-by) tuples; receive-path family: executed, generator-signed blocks of transactions signed with bls0chain and with ed25519 client keys (chain scheme set accordingly: aggregate / per-transaction signature check; validation batch sizes 1, 2, 3, 1000; genuine transactions unknown or on record as validated), the block JSON edited on the wire (one content field of one transaction, all hashes and signatures kept) and sent through decode + Block.ComputeProperties + Block.Validate + miner.Chain.ValidateTransactions; oracle = honest recomputation of the transaction / output hash over the carried contents differs from the carried hash => rejected, unedited block accepted",
 	"C30": "validly signed transactions (ed25519 and bls0chain, send/data/smart-contract) cloned through the JSON receive path (ComputeProperties) and validated with ValidateWrtTime; every listed field is mutated singly in several value classes with stale and recomputed hash; every tampered transaction is also delivered as a block transaction (output + correct output hash) to ValidateWrtTimeForBlock(block time, true/false) and, inside a block of 1..4 transactions received through the block JSON path, to miner.Chain.ValidateTransactions (batch sizes 1, 2, 1000; aggregate signature path for bls0chain); distinct = (path, scheme, field, value class, hash variant, outcome) tuples",
 	"C32": "n<=64 (key,message,signature) items fed to BLS0ChainAggregateSignatureScheme with every batch size class, with each corruption pattern (none, single, several, wrong key, wrong message, swapped pair, cancelling pair same/cross batch, cancelling triple; forged sets that sum to the neutral point: whole set, every batch, one batch, seeded subset, opposite pair same/cross batch; neutral-point signatures: single, one batch, all) at seeded positions, also through miner.Chain.ValidateTransactions and chain.Chain.VerifyTickets; ValidateTransactions also on blocks of which a seeded subset (one, two, half, all but one per batch, batch heads, batch tails; batch sizes 2..n and 1000) was validated before and recorded with Chain.AddValidatedTxns(hash, genuine signature), delivered unchanged, with one recorded transaction's signature replaced (other key, shifted, random point, neutral point, empty), with an unrecorded transaction corrupted, or with a record holding another signature; oracle = conjunction of individual herumi verifications of the signatures the block actually carries; distinct = (n, batch size, pattern, position class, outcome) tuples",
 	"C33": "real DKG instances (1<=t<=n<=9) installed in a real miner chain; VRF shares (valid, wrong message, wrong signer, other DKG, non-member, garbage, duplicates, wrong timeout count) delivered in seeded orders through miner.Chain.AddVRFShare / verifyVRFShare / Round.AddVRFShare / ThresholdNumBLSSigReceived, directly and EARLY (previous round unknown / without seed, timeout count ahead of the round) so that they are parked in the round's share cache and released later; several observers get the same messages in different orders; oracle = every held share verifies under the reference key share, seed only at threshold, seed = seed of the group signature recovered from reference shares, equal for all observers; distinct = (t, n, delivery pattern, outcome) tuples",
@@ -121,6 +121,7 @@ func finishParent(run *mon.Run, prop, tier string) {
 		run.RequireMin("c29.base_block_accepted", 4)
 		run.RequireMin("c29.hash_tamper_evaluated", 200)
 		run.RequireMin("c29.validate_tamper_evaluated", 40)
+		c29RecvRequire(run) // receive-path family (c29recv.go)
 		run.Assume("a tamper counts as detected when Block.ComputeHash changes, or when the code's own per-transaction checks applied to every received block (Transaction.VerifyHash, VerifyOutputHash) reject the tampered transaction; downstream re-execution (state hash comparison) is NOT credited")
 		run.Assume("blocks reach Validate through datastore.FromJSON/FromMsgpack (ComputeProperties), as on every network receive path")
 	case "C30":
